@@ -86,6 +86,11 @@ package keeper
 //@ define ruleOK(r) = !isnil(r.RewardPerShare) && raw(r.RewardPerShare) >= 0 && r.RewardPerBlock >= 0 && r.RemainingReward >= 0 && ufb("denom_valid", r.Reward)
 //@ define rulesOK = forall p:Str :: forall d:Str :: has(ruleF, p, d) ==> ruleOK(get(ruleF, p, d))
 
+// every budget covers the blocks still scheduled (what makes the next release succeed), the pool has a rule, and
+// nobody is staked before the start height
+//@ define endInv(pl) = (forall d:Str :: has(ruleF, pl.Id, d) ==> RULE(pl.Id, d).RemainingReward >= RULE(pl.Id, d).RewardPerBlock * (pl.EndHeight - max(pl.LastHeightDistrRewards, pl.StartHeight)))
+//@        && has(ruleF, pl.Id, ufstr("some_reward", pl.Id)) && (pl.TotalLptLocked.Amount > 0 ==> pl.StartHeight <= pl.LastHeightDistrRewards)
+
 //@ func Keeper.updatePool
 //@   property C05, C06, C13
 //@   returns np, collected, err
@@ -156,6 +161,9 @@ package keeper
 //@                           "LastHeightDistrRewards", height), "EndHeight", ite(isDestroy, height, pool.EndHeight)),
 //@                           "StartHeight", ite(isDestroy && pool.StartHeight > height, height, pool.StartHeight)), "Rules", np.Rules)
 //@                       && pools == set(old(pools), pool.Id, with(np, "Rules", zero(np.Rules)))
+// the schedule stays funded: what is left of every budget still covers the blocks up to the end height
+//@   ensures keeps_end: err == nil && old(endInv(pool)) && (isDestroy || pool.StartHeight <= height || pool.TotalLptLocked.Amount + amount == 0) ==> endInv(np)
+//@   by keeps_end: ens:by_denom, ens:pool_record, req
 //@ end
 
 // ---------------------------------------------------------------------------------------------
@@ -220,6 +228,8 @@ package keeper
 //@                       && bal(sender, d) == old(bal(sender, d)) + amt(reward, d))
 //@   ensures ledger_frame: forall a:Bytes :: forall d:Str :: a != MOD && a != COLLECTOR && a != sender ==> bal(a, d) == old(bal(a, d))
 //@   ensures pool_record: err == nil ==> pools == set(old(pools), poolId, with(with(pl, "LastHeightDistrRewards", height), "Rules", zero(pl.Rules)))
+//@   ensures keeps_end: err == nil && old(endInv(pl)) ==> endInv(POOL(poolId))
+//@   by keeps_end: updatePool.keeps_end, updatePool.pool_record, updatePool.rule_frame, updatePool.by_denom, req
 //@ end
 
 // ---------------------------------------------------------------------------------------------
@@ -299,12 +309,13 @@ package keeper
 //@   lemma @return remDiff(old(ruleF), ruleF, poolId) if err == nil
 //@   ensures escrow:   err == nil && old(escrowInv) ==> escrowInv
 //@   by escrow: ens:ledger, ens:pool_record, ens:rules, ens:rule_frame, ens:guards, lemma, req
+// the pool's schedule stays funded (C05: what keeps later withdrawals from failing)
+//@   ensures keeps_end: err == nil && old(endInv(pl)) ==> endInv(POOL(poolId))
+//@   by keeps_end: updatePool.keeps_end, updatePool.pool_record, updatePool.rule_frame, updatePool.by_denom, req
 //@ end
 
 // every pool has at least one reward rule and, while it has not ended, the budget of every rule covers the blocks
 // that remain (the invariant updatePool's success depends on; established by createPool, kept by AdjustPool)
-//@ define endInv(pl) = (forall d:Str :: has(ruleF, pl.Id, d) ==> RULE(pl.Id, d).RemainingReward >= RULE(pl.Id, d).RewardPerBlock * (pl.EndHeight - max(pl.LastHeightDistrRewards, pl.StartHeight)))
-//@        && has(ruleF, pl.Id, ufstr("some_reward", pl.Id)) && (pl.TotalLptLocked.Amount > 0 ==> pl.StartHeight <= pl.LastHeightDistrRewards)
 
 // Unstake: a farmer can always take out up to the recorded stake (C05): the only guards are the ones on the request
 // itself, the pool may have ended or been destroyed, and under the module invariants no step can fail.
@@ -361,6 +372,8 @@ package keeper
 //@                       && old(forall b:Str :: has(farmers, b, poolId) ==> FARMER(b, poolId).Locked >= 0)
 //@                       && old(forall d:Str :: STAKED(pools, d) >= stakedAt(pools, poolId, d) && REM(ruleF, d) >= remAt(ruleF, poolId, d) && REM(ruleF, d) >= 0 && STAKED(pools, d) >= 0)
 //@                       ==> err == nil
+//@   ensures keeps_end: err == nil && old(endInv(pl)) ==> endInv(POOL(poolId))
+//@   by keeps_end: updatePool.keeps_end, updatePool.pool_record, updatePool.rule_frame, updatePool.by_denom, req
 //@ end
 
 // ---------------------------------------------------------------------------------------------
@@ -554,4 +567,25 @@ package keeper
 //@   lemma @return stakedUpd(old(pools), np.Id, POOL(np.Id)) if err == nil
 //@   lemma @return remDiff(old(ruleF), ruleF, np.Id) if err == nil
 //@   ensures escrow:  err == nil && freshId(np.Id) && old(escrowInv) ==> escrowInv
+//@ end
+
+// Pool creation by community-pool proposal: the applied fund plus the self bond is moved from the proposal escrow into
+// the farm escrow and exactly that total becomes the budgets of the new pool's rules, so that the escrow identity
+// (escrow == staked + unreleased budgets) keeps holding and every escrowed coin is either released or refunded later.
+//@ define ESC = macc("escrow_collector")
+//@ define fund(p, d) = amt(coinsof(p.FundApplied), d) + amt(coinsof(p.FundSelfBond), d)
+//@ func Keeper.HandleCreateFarmProposal
+//@   property C05, C06
+//@   returns err
+//@   requires height >= 0 && ufb("denom_valid", p.LptDenom)
+//@   requires fund(p, ufstr("some_fund", p)) > 0
+//@   uses coinsListD(coinsof(p.FundApplied), "")
+//@   requires forall d:Str :: amt(coinsof(p.FundApplied), d) >= 0 && amt(coinsof(p.FundSelfBond), d) >= 0
+//@   requires forall d:Str :: fund(p, d) > 0 ==> amt(coinsof(p.RewardPerBlock), d) > 0 && ufb("denom_valid", d) && fund(p, d) div amt(coinsof(p.RewardPerBlock), d) <= 9223372036854775807
+//@   modifies bal, ruleF, pools, active, poolSeq
+//@   ensures ledger: err == nil ==> (forall d:Str :: bal(MOD, d) == old(bal(MOD, d)) + fund(p, d) && bal(ESC, d) == old(bal(ESC, d)) - fund(p, d))
+//@   ensures budgets: err == nil ==> (forall d:Str :: fund(p, d) > 0 ==> has(ruleF, pool.Id, d) && RULE(pool.Id, d).TotalReward == fund(p, d) && RULE(pool.Id, d).RemainingReward == fund(p, d))
+//@   lemma @return stakedUpd(old(pools), pool.Id, POOL(pool.Id)) if err == nil
+//@   lemma @return remDiff(old(ruleF), ruleF, pool.Id) if err == nil
+//@   ensures escrow:  err == nil && freshId(pool.Id) && old(escrowInv) ==> escrowInv
 //@ end
